@@ -51,7 +51,9 @@ RULE = ('cases = corpus + random requests (PATH_INFO, QUERY_STRING, Host, X-Forw
         'attribute and switched between the requests of a sequence, route hooks, X-Script-Name, app_name_header, domain_map, '
         'missing environ keys, https/443, HEAD, an exception whose repr() raises, ordinary traffic (13 output types) and a '
         'second application inside sequences; one request part blown up to 1-5 kB around the markup (5 % of the requests, '
-        'plus corpus cases at 1000..4096 characters; the thorough tier sweeps every length 960..1060 and up to 8 kB)')
+        'plus corpus cases at 1000..4096 characters; the ten non-ASCII characters whose NFC/NFD/NFKC/NFKD/case image contains '
+        '< > " \' & (and look-alikes of { } \\ % /) are part of the path / message alphabet, as UTF-8 bytes and %-escapes also '
+        'of the query / Host alphabet; the thorough tier sweeps every length 960..1060 and up to 8 kB)')
 TRUSTED = [
     'section variable isprintable (Unicode table behind str.isprintable, consulted by repr for code points >= 128): '
     'arbitrary in every theorem; in the correspondence the harness supplies the non-printable code points of each case',
@@ -130,6 +132,19 @@ CTRL = ['\x00', '\x01', '\t', '\n', '\r', '\x0b', '\x1b', '\x1f', '\x7f']
 HIGH_LATIN = ['\x80', '\x85', '\xa0', '\xad', '\xe9', '\xff', '\xc3', '\xa9']
 UNI = ['\xe9', '\u0416', '\u2028', '\u2029', '\u200b', '\ufeff', '\ufffd', '\U0001F600', '\U000E0001', '\U0010FFFF',
        '\u0378', '\xa0', '\xad', '\u3000', '\u0600']
+
+# every non-ASCII character whose NFC/NFD/NFKC/NFKD/casefold/lower/upper/title image contains one of < > " ' &
+# (enumerated over all of Unicode 15; seeded change C20-11 normalised the finished last-resort page)
+COMPAT = ['\u226e', '\u226f', '\ufe60', '\ufe64', '\ufe65', '\uff02', '\uff06', '\uff07', '\uff1c', '\uff1e']
+# look-alikes of the other characters the page treats specially: { } \\ % /
+COMPAT_MORE = ['\uff5b', '\uff5d', '\uff3c', '\ufe68', '\uff05', '\uff0f', '\ufe5b', '\ufe5c']
+COMPAT_WORDS = ['\uff1cimg src=x onerror=alert(1)\uff1e', '\uff1cscript\uff1ealert(1)\uff1c/script\uff1e',
+                '\ufe64b\ufe65', '\uff02\uff1e\uff1csvg/onload=1\uff1e', '\uff07;alert(1)//', '\uff06lt;', '\ufe60amp;',
+                '\uff5b0\uff5d', '\uff5be.__class__\uff5d', 'a\u226eb\u226fc']
+UNI = UNI + COMPAT + COMPAT_MORE + COMPAT_WORDS
+# the same characters as a query string or a Host header can carry them: UTF-8 bytes (latin-1 view) and %-escapes
+HIGH_LATIN = HIGH_LATIN + [c.encode('utf8').decode('latin1') for c in COMPAT] + \
+    [''.join('%%%02X' % b for b in c.encode('utf8')) for c in COMPAT]
 
 _CACHE = {}
 _SETUP = {}
@@ -1080,6 +1095,16 @@ def corpus():
         prim('loads', '{"a": 1}'), prim('loads', '{"a": {}}'), prim('loads', '{a: "b"}'), prim('loads', "{'a': 'b'}"),
         prim('loads', '\ufeff{}'), prim('loads', '{"a":\x0c"b"}'), prim('loads', '{"a": "b"}\x00'),
     ]
+    # compatibility characters that fold to markup under Unicode normalisation (seeded change C20-11)
+    CW = '\uff1cimg src=x onerror=alert(1)\uff1e\uff02\uff07\uff06\ufe64b\ufe65\ufe60\u226e\u226f'
+    for tr in CRIT:
+        out.append(crit(tr, tail=_wire(CW), qs=_wire(CW)))
+        out.append(crit(tr, tail=_wire(CW), debug=True, msg=CW))
+    for k in KINDS:
+        out.append(page(k, tail=_wire(CW), qs=_wire(CW), host=_wire('\uff1cb\uff1e')))
+    out += [page('crash', tail='u', msg=CW), page('crash', tail='u', msg=CW, debug=True), page('crash', tail='u', msg=CW, accept=J),
+            page('404', tail='u', qs='%EF%BC%9Cb%EF%BC%9E'), page('404', tail=_wire(CW), accept=J),
+            prim('escape', CW), prim('html_escape', CW), prim('repr', CW), prim('dumps', CW)]
     # long requests (seeded change C20-8: a length guard that echoed the raw url once the escaped url passed 1024
     # characters).  Escaping must hold for every length: markup inside 1-5 kB of padding, in each request part.
     for k in KINDS:
@@ -1378,7 +1403,7 @@ def gen(rng, n):
 
 def thorough():
     """every kind/trigger x every single vocabulary item in each request position (bounded-exhaustive over the vocabulary)"""
-    items = VOCAB + CTRL + HIGH_LATIN
+    items = VOCAB + CTRL + HIGH_LATIN + COMPAT + COMPAT_MORE
     # lengths: every escaped-url length around 1 kB, and a coarse sweep up to 8 kB, markup first / last
     for n in list(range(960, 1060)) + list(range(1100, 8200, 355)):
         yield page('404', tail='u', qs=long_text('<b>"', n, 'a', 'before'))
